@@ -19,6 +19,7 @@ import (
 	"strconv"
 	"strings"
 	"unicode"
+	"unicode/utf8"
 
 	gcmd "github.com/ajitpratap0/GoSQLX/cmd/gosqlx/cmd"
 	"github.com/ajitpratap0/GoSQLX/pkg/linter"
@@ -26,6 +27,7 @@ import (
 	"github.com/ajitpratap0/GoSQLX/pkg/linter/rules/style"
 	"github.com/ajitpratap0/GoSQLX/pkg/linter/rules/whitespace"
 	"github.com/ajitpratap0/GoSQLX/pkg/lsp"
+	sqlkw "github.com/ajitpratap0/GoSQLX/pkg/sql/keywords"
 	"github.com/ajitpratap0/GoSQLX/pkg/sql/tokenizer"
 )
 
@@ -213,7 +215,8 @@ func init() {
 	}
 
 	// linttables <repo>: Unicode classes used by the rules (from the toolchain's unicode package), the
-	// runes whose upper-case image is an ASCII letter, and the keyword set of L007 read from the source
+	// runes whose upper-case image is an ASCII letter, and the keyword set of L007 OBSERVED on the rule itself
+	// (lintObserveKeywords: which candidate words does the exported rule re-case / flag)
 	subcmds["linttables"] = func(args []string) int {
 		type rg [2]int
 		ranges := func(pred func(rune) bool) []rg {
@@ -244,11 +247,8 @@ func init() {
 		if len(args) > 0 {
 			repo = args[0]
 		}
-		kws, err := lintKeywordsFromSource(filepath.Join(repo, "pkg/linter/rules/keywords/keyword_case.go"))
-		if err != nil {
-			fmt.Fprintln(os.Stderr, err)
-			return 1
-		}
+		cands := lintKeywordCandidates(repo)
+		kws, incons := lintObserveKeywords(cands)
 		// the characters that start / continue the tag of a dollar-quoted string, as the rules' scanner reads them:
 		// observed on linter.LexMap itself ("$r$ $r$" / "$ar$ $ar$" is one literal exactly when r starts / continues a tag)
 		lit := func(s string) bool { return linter.LexMap(s)[0] == linter.LexLiteral }
@@ -257,8 +257,25 @@ func init() {
 		emitJSON(map[string]interface{}{
 			"letter": ranges(unicode.IsLetter), "digit": ranges(unicode.IsDigit), "space": ranges(unicode.IsSpace),
 			"upper_ascii": upper, "lower_of": lowerOf, "keywords": kws,
+			"keyword_candidates": len(cands), "keyword_inconsistent": incons,
 			"idstart": ranges(tagStart), "idpart": ranges(tagPart),
 		})
+		return 0
+	}
+
+	// lintkw: stdin one JSON list of words -> {"keywords": [...], "inconsistent": [...]}: the same observation for words
+	// the candidate vocabulary does not hold (every word of the texts of a run is asked)
+	subcmds["lintkw"] = func(args []string) int {
+		sc := bufio.NewScanner(os.Stdin)
+		sc.Buffer(make([]byte, 1<<20), 1<<28)
+		for sc.Scan() {
+			var ws []string
+			if json.Unmarshal(sc.Bytes(), &ws) != nil {
+				continue
+			}
+			kws, incons := lintObserveKeywords(ws)
+			emitJSON(map[string]interface{}{"keywords": kws, "inconsistent": incons})
+		}
 		return 0
 	}
 
@@ -404,46 +421,234 @@ func init() {
 	}
 }
 
-// keyword set of L007, read from the composite literal `sqlKeywords = map[string]bool{...}`
-func lintKeywordsFromSource(path string) ([]string, error) {
-	fs := token.NewFileSet()
-	f, err := parser.ParseFile(fs, path, nil, 0)
-	if err != nil {
-		return nil, err
+// The keyword set of L007 is OBSERVED, not read from the source: a word W (upper case) is a keyword iff the exported rule
+// (keywords.NewKeywordCaseRule(CaseUpper) on a text that consists of the word in lower case) flags the word as a whole
+// (one violation, at column 1) and its Fix gives W.
+// How the rule stores the set (map literal, sorted list, generated table, another package) does not matter.
+//
+// Candidates: every word of every string literal of the non-test sources under pkg/linter (however the set is
+// written down, its words are string constants there), the keyword tables of the tokenizer and of pkg/sql/keywords,
+// and a dictionary of SQL words and ordinary identifiers; lib/c17.py asks again (`lintkw`) for every word of the texts
+// of a run that is not among them, so the set is exact on everything the oracles and the model are evaluated on.
+//
+// A set is only a set if the rule treats a word the same in every spelling: for each candidate the spellings lower,
+// UPPER, Capitalised and aLTERNATING are put to Check and Fix under both styles; expected from "W is / is not a
+// keyword": flagged iff keyword and not already in the preferred case; Fix gives the preferred case iff keyword, else
+// the text unchanged.  Any other answer is returned as an inconsistency (lib/c17.py reports it: the rule flags
+// something else than "keyword in the wrong case").
+func lintWordish(w string) bool {
+	if w == "" || len(w) > 40 {
+		return false
 	}
-	var out []string
-	ast.Inspect(f, func(n ast.Node) bool {
-		vs, ok := n.(*ast.ValueSpec)
-		if !ok {
-			return true
+	for i, r := range w {
+		if !(unicode.IsLetter(r) || r == '_' || (i > 0 && unicode.IsDigit(r))) {
+			return false
 		}
-		for i, nm := range vs.Names {
-			if nm.Name != "sqlKeywords" || i >= len(vs.Values) {
-				continue
+	}
+	// the case images must be words of the same length class (ToUpper / ToLower are what the rule applies)
+	return utf8.ValidString(w)
+}
+
+func lintWordsOf(text string, into map[string]bool) {
+	start := -1
+	flush := func(end int) {
+		if start >= 0 {
+			if w := text[start:end]; lintWordish(w) {
+				into[strings.ToUpper(w)] = true
 			}
-			cl, ok := vs.Values[i].(*ast.CompositeLit)
-			if !ok {
-				continue
+			start = -1
+		}
+	}
+	for i, r := range text {
+		if unicode.IsLetter(r) || r == '_' || (start >= 0 && unicode.IsDigit(r)) {
+			if start < 0 {
+				start = i
 			}
-			for _, e := range cl.Elts {
-				kv, ok := e.(*ast.KeyValueExpr)
-				if !ok {
-					continue
+		} else {
+			flush(i)
+		}
+	}
+	flush(len(text))
+}
+
+func lintKeywordCandidates(repo string) []string {
+	set := map[string]bool{}
+	// (1) string literals of the linter's sources
+	filepath.Walk(filepath.Join(repo, "pkg", "linter"), func(path string, info os.FileInfo, err error) error {
+		if err != nil || info.IsDir() || !strings.HasSuffix(path, ".go") || strings.HasSuffix(path, "_test.go") {
+			return nil
+		}
+		fs := token.NewFileSet()
+		f, err := parser.ParseFile(fs, path, nil, 0)
+		if err != nil {
+			return nil
+		}
+		ast.Inspect(f, func(n ast.Node) bool {
+			if bl, ok := n.(*ast.BasicLit); ok && bl.Kind == token.STRING {
+				if v, err := strconv.Unquote(bl.Value); err == nil {
+					lintWordsOf(v, set)
 				}
-				k, ok1 := kv.Key.(*ast.BasicLit)
-				v, ok2 := kv.Value.(*ast.Ident)
-				if ok1 && ok2 && v.Name == "true" {
-					if s, err := strconv.Unquote(k.Value); err == nil {
-						out = append(out, s)
+			}
+			return true
+		})
+		return nil
+	})
+	// (2) keyword tables of the tokenizer and of pkg/sql/keywords
+	for k := range tokenizer.VerifKeywordTypes() {
+		lintWordsOf(k, set)
+	}
+	for k := range tokenizer.VerifCompoundKeywordTypes() {
+		lintWordsOf(k, set)
+	}
+	for _, d := range sqlkw.AllDialects() {
+		for _, k := range sqlkw.DialectKeywords(d) {
+			lintWordsOf(k.Word, set)
+		}
+	}
+	for _, l := range [][]sqlkw.Keyword{sqlkw.RESERVED_FOR_TABLE_ALIAS, sqlkw.ADDITIONAL_KEYWORDS} {
+		for _, k := range l {
+			lintWordsOf(k.Word, set)
+		}
+	}
+	// (3) dictionary
+	lintWordsOf(lintDictionary, set)
+	out := make([]string, 0, len(set))
+	for w := range set {
+		out = append(out, w)
+	}
+	sort.Strings(out)
+	return out
+}
+
+type lintKwIncons struct {
+	Word     string `json:"word"`
+	Spelling string `json:"spelling"`
+	Style    string `json:"style"`
+	Keyword  bool   `json:"keyword"`           // what the lower-case spelling under CaseUpper said
+	Flagged  int    `json:"flagged"`           // number of violations Check reported on the one-word text
+	Fix      string `json:"fix"`               // Fix(text)
+	Want     string `json:"want"`              // expected Fix(text)
+	Panic    string `json:"panic,omitempty"`
+}
+
+func lintAlternating(w string) string {
+	var sb strings.Builder
+	up := false
+	for _, r := range w {
+		if up {
+			sb.WriteString(strings.ToUpper(string(r)))
+		} else {
+			sb.WriteString(strings.ToLower(string(r)))
+		}
+		up = !up
+	}
+	return sb.String()
+}
+
+func lintObserveKeywords(words []string) (kws []string, incons []lintKwIncons) {
+	kws, incons = []string{}, []lintKwIncons{}
+	up, lo := keywords.NewKeywordCaseRule(keywords.CaseUpper), keywords.NewKeywordCaseRule(keywords.CaseLower)
+	ask := func(r *keywords.KeywordCaseRule, text string) (n int, fix string, pn string, whole bool) {
+		pn = guarded(func() {
+			vs, _ := r.Check(linter.NewContext(text, "case.sql"))
+			n = len(vs)
+			whole = n == 1 && vs[0].Location.Line == 1 && vs[0].Location.Column == 1
+			fix, _ = r.Fix(text, vs)
+		})
+		return
+	}
+	seen := map[string]bool{}
+	for _, w := range words {
+		W := strings.ToUpper(w)
+		l := strings.ToLower(W)
+		if seen[W] || !lintWordish(W) || !lintWordish(l) || strings.ToUpper(l) != W || l == W {
+			continue // no letter with two cases, or case images that do not round-trip: not a spelling the set is asked about
+		}
+		seen[W] = true
+		// a keyword: the word as a whole is flagged (one violation, at its first character) and re-cased as a whole; a
+		// rule that flags a part of the word, or flags without re-casing, shows up below as an inconsistency
+		_, fix0, pn0, whole0 := ask(up, l)
+		isKw := pn0 == "" && whole0 && fix0 == W
+		if isKw {
+			kws = append(kws, W)
+		}
+		capd := strings.ToUpper(l[:1]) + l[1:]
+		if r, sz := utf8.DecodeRuneInString(l); sz > 0 {
+			capd = strings.ToUpper(string(r)) + l[sz:]
+		}
+		for _, sp := range []string{l, W, capd, lintAlternating(l)} {
+			if strings.ToUpper(sp) != W || strings.ToLower(sp) != l {
+				continue
+			}
+			for _, st := range []struct {
+				name string
+				r    *keywords.KeywordCaseRule
+				pref string
+			}{{"upper", up, W}, {"lower", lo, l}} {
+				n, fix, pn, _ := ask(st.r, sp)
+				wantN, wantFix := 0, sp
+				if isKw {
+					wantFix = st.pref
+					if sp != st.pref {
+						wantN = 1
+					}
+				}
+				if pn != "" || n != wantN || fix != wantFix {
+					if len(incons) < 40 {
+						incons = append(incons, lintKwIncons{Word: W, Spelling: sp, Style: st.name, Keyword: isKw, Flagged: n, Fix: fix, Want: wantFix, Panic: pn})
 					}
 				}
 			}
 		}
-		return true
-	})
-	if len(out) == 0 {
-		return nil, fmt.Errorf("sqlKeywords not found in %s", path)
 	}
-	sort.Strings(out)
-	return out, nil
+	sort.Strings(kws)
+	return
 }
+
+// SQL words (reserved and non-reserved words of the standard and of the common dialects) and ordinary identifiers
+const lintDictionary = `
+ABORT ABS ABSOLUTE ACCESS ACTION ADD ADMIN AFTER AGGREGATE ALL ALLOCATE ALSO ALTER ALWAYS ANALYSE ANALYZE AND ANY ARE ARRAY AS ASC
+ASENSITIVE ASSERTION ASSIGNMENT ASYMMETRIC AT ATOMIC ATTACH ATTRIBUTE AUTHORIZATION AUTO_INCREMENT AUTOINCREMENT AVG BACKWARD BEFORE
+BEGIN BETWEEN BIGINT BINARY BIT BLOB BOOLEAN BOTH BREADTH BY CACHE CALL CALLED CASCADE CASCADED CASE CAST CATALOG CEIL CEILING CHAIN
+CHAR CHARACTER CHARACTERISTICS CHECK CHECKPOINT CLASS CLOB CLOSE CLUSTER COALESCE COLLATE COLLATION COLUMN COLUMNS COMMENT COMMENTS
+COMMIT COMMITTED CONCURRENTLY CONDITION CONFLICT CONNECT CONNECTION CONSTRAINT CONSTRAINTS CONTAINS CONTENT CONTINUE CONVERSION
+CONVERT COPY CORRESPONDING COUNT CREATE CROSS CSV CUBE CUME_DIST CURRENT CURRENT_DATE CURRENT_ROLE CURRENT_TIME CURRENT_TIMESTAMP
+CURRENT_USER CURSOR CYCLE DATA DATABASE DATABASES DATE DATETIME DAY DEALLOCATE DEC DECIMAL DECLARE DEFAULT DEFAULTS DEFERRABLE
+DEFERRED DEFINER DELETE DELIMITER DENSE_RANK DEPTH DEREF DESC DESCRIBE DESCRIPTOR DETACH DETERMINISTIC DICTIONARY DISABLE DISCARD
+DISCONNECT DISTINCT DISTRIBUTE DO DOCUMENT DOMAIN DOUBLE DROP DUPLICATE DYNAMIC EACH ELEMENT ELSE ELSEIF ENABLE ENCODING ENCRYPTED END
+ENUM ESCAPE EVENT EXCEPT EXCLUDE EXCLUDING EXCLUSIVE EXEC EXECUTE EXISTS EXIT EXPLAIN EXTENSION EXTERNAL EXTRACT FALSE FAMILY FETCH
+FILTER FIRST FIRST_VALUE FLOAT FLOOR FOLLOWING FOR FORCE FOREIGN FORMAT FORWARD FREE FREEZE FROM FULL FULLTEXT FUNCTION FUNCTIONS
+GENERATED GET GLOB GLOBAL GO GOTO GRANT GRANTED GREATEST GROUP GROUPING GROUPS HANDLER HAVING HEADER HOLD HOUR IDENTITY IF IGNORE ILIKE
+IMMEDIATE IMMUTABLE IMPLICIT IMPORT IN INCLUDE INCLUDING INCREMENT INDEX INDEXED INDEXES INHERIT INHERITS INITIALLY INLINE INNER INOUT
+INPUT INSENSITIVE INSERT INSTEAD INT INTEGER INTERSECT INTERVAL INTO INVOKER IS ISNULL ISOLATION ITERATE JOIN JSON JSONB KEY KEYS KILL
+LABEL LAG LANGUAGE LARGE LAST LAST_VALUE LATERAL LEAD LEADING LEAKPROOF LEAST LEAVE LEFT LEVEL LIKE LIMIT LISTEN LN LOAD LOCAL
+LOCALTIME LOCALTIMESTAMP LOCATION LOCK LOCKED LOGGED LONG LOOP LOWER MAP MAPPING MATCH MATCHED MATERIALIZED MAX MAXVALUE MEMBER MERGE
+METHOD MIN MINUS MINUTE MINVALUE MOD MODE MODIFIES MODIFY MODULE MONTH MOVE MULTISET NAME NAMES NATIONAL NATURAL NCHAR NCLOB NEW NEXT
+NO NONE NORMALIZE NOT NOTHING NOTIFY NOTNULL NOWAIT NTH_VALUE NTILE NULL NULLIF NULLS NUMERIC OBJECT OCTET_LENGTH OF OFF OFFSET OIDS OLD
+ON ONLY OPEN OPERATOR OPTION OPTIONS OR ORDER ORDINALITY OTHERS OUT OUTER OVER OVERLAPS OVERLAY OVERRIDING OWNED OWNER PARALLEL
+PARAMETER PARSER PARTIAL PARTITION PASSING PASSWORD PERCENT PERCENT_RANK PIVOT PLACING PLANS POLICY POSITION POWER PRECEDING PRECISION
+PREPARE PREPARED PRESERVE PRIMARY PRIOR PRIVILEGES PROCEDURAL PROCEDURE PROCEDURES PROGRAM PUBLICATION QUALIFY QUOTE RANGE RANK READ
+READS REAL REASSIGN RECHECK RECURSIVE REF REFERENCES REFERENCING REFRESH REGEXP REINDEX RELATIVE RELEASE RENAME REPEAT REPEATABLE
+REPLACE REPLICA RESET RESIGNAL RESTART RESTRICT RESULT RETURN RETURNING RETURNS REVOKE RIGHT RLIKE ROLE ROLLBACK ROLLUP ROUTINE ROW
+ROW_NUMBER ROWS RULE SAVEPOINT SCHEMA SCHEMAS SCOPE SCROLL SEARCH SECOND SECURITY SELECT SENSITIVE SEQUENCE SEQUENCES SERIAL
+SERIALIZABLE SERVER SESSION SESSION_USER SET SETOF SETS SHARE SHOW SIGNAL SIMILAR SIMPLE SKIP SMALLINT SNAPSHOT SOME SQL SQLSTATE
+STABLE STANDALONE START STATEMENT STATIC STATISTICS STDIN STDOUT STORAGE STORED STRICT STRIP SUBSCRIPTION SUBSTRING SUM SUPPORT
+SYMMETRIC SYSID SYSTEM SYSTEM_USER TABLE TABLES TABLESAMPLE TABLESPACE TEMP TEMPLATE TEMPORARY TEXT THEN TIES TIME TIMESTAMP TINYINT
+TO TOP TRAILING TRANSACTION TRANSFORM TREAT TRIGGER TRIM TRUE TRUNCATE TRUSTED TYPE TYPES UNBOUNDED UNCOMMITTED UNDO UNENCRYPTED UNION
+UNIQUE UNKNOWN UNLISTEN UNLOCK UNLOGGED UNNEST UNPIVOT UNSIGNED UNTIL UPDATE UPPER USAGE USE USER USING VACUUM VALID VALIDATE VALIDATOR
+VALUE VALUES VARBINARY VARCHAR VARIADIC VARYING VERBOSE VERSION VIEW VIEWS VOLATILE WHEN WHENEVER WHERE WHILE WHITESPACE WINDOW WITH
+WITHIN WITHOUT WORK WRAPPER WRITE XML XMLATTRIBUTES XMLCONCAT XMLELEMENT XMLEXISTS XMLFOREST XMLNAMESPACES XMLPARSE XMLPI XMLROOT
+XMLSERIALIZE XMLTABLE XOR YEAR YES ZEROFILL ZONE
+a b c d e f g h i j k l m n o p q r s t u v w x y z aa ab id ids uid pk fk no n1 t1 t2 t3 c1 c2 col col1 col2 tbl tab foo bar baz qux quux
+users user_id username email name names first_name last_name full_name age address city state country zip phone status active
+created created_at updated updated_at deleted deleted_at orders order_id order_date order_total customers customer customer_id
+products product product_id price amount total quantity qty items item item_id sku category categories category_id description title
+accounts account account_id balance payments payment invoices invoice employees employee emp emp_id dept department departments
+dept_id salary manager manager_id hire_date projects project tasks task events event logs log messages message posts post comments
+tags tag sessions token tokens roles permissions groups members teams team companies company regions region stores store sales
+revenue cost profit budget year_month day_of_week ts dt val vals num cnt sum_total avg_price max_id min_id flag flags is_active
+is_deleted enabled visible score rank_no level parent parent_id child children node nodes path url uri host port ip lat lon
+geo data payload body content text_value json_data meta metadata config settings options params result results output input
+señor naïve café été straße größe übung Ünïcödé таблица имя данные 名前 表 列 δοκιμή
+`
+
